@@ -13,6 +13,25 @@ def heap_run(prop, tier, seed, scratch):
 
 def heap_replay(prop, path, scratch):
     vh = build_harness(scratch)
+    v = json.load(open(path))
+    if v.get("steps_file"):
+        # a rejected recorded execution: re-execute its operations on the current tree and let TLC validate the new trace
+        new = scratch.path("redrive.ndjson")
+        p = subprocess.run([vh, "redrive", "-in", v["steps_file"], "-trace", new])
+        if p.returncode != 0:
+            return 2
+        mod = "---- MODULE MC ----\nEXTENDS HeapTrace\nmcLits == <<>>\n====\n"
+        cfg = ('CONSTANTS\n NKeys = 4\n Lits <- mcLits\n TraceFile = "%s"\nSPECIFICATION TraceSpec\nINVARIANT TraceInv\nCONSTRAINT Mark\n'
+               'POSTCONDITION TraceAccepted\nCHECK_DEADLOCK FALSE\n' % new)
+        res = run_tlc(scratch, prop + "-replay", mod, cfg, ["Heap.tla", "HeapTrace.tla"], 900, workers=1, heap="8g")
+        if res["ok"]:
+            print("replay: the re-executed program is accepted by HeapTrace.tla on this tree")
+            return 0
+        if "TraceAccepted" in res["tail"]:
+            print("VIOLATION property=%s replay=%s" % (prop, path))
+            print("  the re-executed program is rejected by HeapTrace.tla at event %d" % res.get("states", 0))
+            return 1
+        return 2
     p = subprocess.run([vh, "replayfile", "-file", path])
     return p.returncode if p.returncode in (0, 1) else 2
 
